@@ -133,7 +133,9 @@ int main(int argc, char** argv) {
       }
       if (op) { auto d = std::move(w.destroyOp); w.destroyOp = nullptr; if (d) d(); }
       live = w.tr.live.size(); bad = w.tr.bad.size(); root = w.rootCount;
-      sched = vrt::sched_json(rr);
+      sched = "[";
+      for (size_t i = 0; i < rr.steps.size(); ++i) { if (i) sched += ","; sched += "[" + std::to_string(rr.steps[i].t) + ",\"" + rr.steps[i].site + "\"]"; }
+      sched += "]";
       steps += (long)rr.steps.size();
     }
     heapacct::on = false;
